@@ -221,3 +221,52 @@ PROPS["C05"] = {
         "thorough": [{"mode": "rc", "cases": 60000, "max_size": 100}],
     },
 }
+
+PROPS["C16"] = {
+    "manifest": {
+        "level_text": ("Enumeration plus generated search of the codec input space: thorough tier checks ALL 2^32 32-bit values "
+                       "(exhaustive for mtbl_varint_encode32/decode32/length/length_packed and decode64/encode64 on that range), "
+                       "every 64-bit bit-length boundary +-2 and walking patterns, tens of millions of repetition-free pseudo-random "
+                       "64-bit values across all bit lengths, truncated/over-long/unterminated encodings, and the fixed codecs at "
+                       "alignments 0..7 in exact-size ASan heap buffers. Quick tier samples the same space."),
+        "level_note": TRUST + " Oracle: a two-line shift-and-mask reference encoder for base-128 / little-endian.",
+        "technique": "exhaustive enumeration + repetition-free pseudo-random sampling + rapidcheck generation against a bitwise reference codec (differential oracle), in-process under ASan/UBSan",
+    },
+    "src": "props/C16.cpp",
+    "level": "exploration",
+    "rule": ("one evaluation = one (codec, value[, alignment]) checked against the reference encoder in both directions, incl. byte "
+             "count = mtbl_varint_length = mtbl_varint_length_packed and truncation behaviour. Non-trivial = value >= 128 (multi-byte "
+             "encoding). Enumerated and bijection-sampled values are distinct by construction (counter bulk_distinct_nontrivial, added to "
+             "distinct_nontrivial); rapidcheck-generated cases are de-duplicated by hash."),
+    "assumptions": ["library compiled with clang -O1 + ASan/UBSan; x86-64 little-endian host (the big-endian branch of my_byteorder.h is not exercised)"],
+    "tiers": {
+        "quick": [{"mode": "bounds", "workers": 1, "exhaustive": False}, {"mode": "sample", "kv": {"count": 1500000}}, {"mode": "rc", "cases": 3000, "workers": 4}],
+        "thorough": [{"mode": "bounds", "workers": 1}, {"mode": "sample", "kv": {"count": 20000000}},
+                     {"mode": "all32", "exhaustive": True, "note": "all 2^32 values of the 32-bit varint codec"},
+                     {"mode": "rc", "cases": 50000, "workers": 4}],
+    },
+}
+
+PROPS["C17"] = {
+    "manifest": {
+        "level_text": ("Differential check of mtbl_crc32c, my_crc32c_sse42 and my_crc32c_slicing (all three called on every buffer, "
+                       "regardless of which one the host CPU selects) against a bit-at-a-time CRC-32C reference that is itself checked "
+                       "against the RFC 3720 B.4 vectors: every length 0..1100 x alignment 0..7, all 256 values of every byte position of "
+                       "buffers of length 1..40 x alignment 0..7, random megabyte buffers, rapidcheck-generated buffers. Buffers end "
+                       "exactly at the end of an ASan heap block."),
+        "level_note": TRUST + " The SSE4.2 path can only run on a CPU that has SSE4.2 (present here; otherwise the run records class sse42_unavailable_skipped).",
+        "technique": "enumeration + rapidcheck generation against a bitwise reference CRC (differential oracle), in-process under ASan/UBSan",
+    },
+    "src": "props/C17.cpp",
+    "level": "exploration",
+    "rule": ("one evaluation = one (buffer, alignment) on which all three entry points are compared with the reference. All "
+             "enumerated evaluations are distinct by construction and count as non-trivial when the buffer is non-empty "
+             "(bulk_distinct_nontrivial); rapidcheck cases are de-duplicated by hash."),
+    "assumptions": ["x86-64 host with SSE4.2 for the hardware path"],
+    "tiers": {
+        "quick": [{"mode": "vectors", "workers": 1}, {"mode": "lens", "kv": {"reps": 2}}, {"mode": "bytes", "kv": {"lmax": 40}},
+                  {"mode": "big", "kv": {"maxlen": 1048576, "count": 3}}, {"mode": "rc", "cases": 1500, "workers": 8}],
+        "thorough": [{"mode": "vectors", "workers": 1}, {"mode": "lens", "kv": {"reps": 40}}, {"mode": "bytes", "kv": {"lmax": 200}},
+                     {"mode": "big", "kv": {"maxlen": 16777216, "count": 12}}, {"mode": "rc", "cases": 30000, "workers": 8}],
+    },
+}
